@@ -24,7 +24,8 @@ VERSIONS_NUM = ["20", "7.0", "7.1", "10.0.1", "2.2", "5", "6.10", "20150522"]
 VERSIONS_FREE = ["Rawhide", "rawhide", "Bikeshed", "eln"]
 VERSIONS_BAD = ["", "1.", "1..2", "1a", "7.x", ".5"]
 
-VARIANT_IDS = ["Server", "Client", "Workstation", "optional", "HighAvailability", "Tools", "RT", "A", "B1", "x9"]
+VARIANT_IDS = ["Server", "Client", "Workstation", "optional", "HighAvailability", "Tools", "RT", "A", "B1", "x9",
+               "ServerRT", "AB", "B", "Clients"]
 VARIANT_IDS_BAD = ["Ser-ver", "", "a b", "x_y", "Sérver"]
 
 IMAGE_TYPE_FORMAT = {
